@@ -656,6 +656,43 @@ func headerDeletes(fact string, props []string, rel string) {
 	emitStrList(fact, props, out)
 }
 
+// stringSliceVar: `var <name> = []string{ "a", "b", … }` at package level, in source order
+func stringSliceVar(fact string, props []string, rel, name string) {
+	f := parse(rel)
+	if f == nil {
+		fail(fact, props, rel+" does not parse")
+		return
+	}
+	for _, d := range f.Decls {
+		gd, ok := d.(*ast.GenDecl)
+		if !ok {
+			continue
+		}
+		for _, sp := range gd.Specs {
+			vs, ok := sp.(*ast.ValueSpec)
+			if !ok || len(vs.Names) != 1 || vs.Names[0].Name != name || len(vs.Values) != 1 {
+				continue
+			}
+			cl, ok := vs.Values[0].(*ast.CompositeLit)
+			if !ok {
+				continue
+			}
+			var out []string
+			for _, e := range cl.Elts {
+				bl, ok := e.(*ast.BasicLit)
+				if !ok {
+					fail(fact, props, "non-literal element in "+name)
+					return
+				}
+				out = append(out, unq(bl.Value))
+			}
+			emitStrList(fact, props, out)
+			return
+		}
+	}
+	fail(fact, props, name+" not found in "+rel)
+}
+
 func unq(s string) string {
 	u, err := strconv.Unquote(s)
 	if err != nil {
